@@ -85,6 +85,10 @@ var entries = []entry{
 	{"M.Minify", func(d corpus.Doc, w io.Writer, r io.Reader) error {
 		return corpus.Registry().Minify(d.Type, w, r)
 	}},
+	// the media type parameter that HTML and SVG hosts pass for attribute values and nested documents
+	{"M.Minify;inline=1", func(d corpus.Doc, w io.Writer, r io.Reader) error {
+		return corpus.Registry().Minify(d.Type+";inline=1", w, r)
+	}},
 }
 
 // One runs one fault case; returns a violation description or "".
